@@ -295,6 +295,8 @@ def run_property(mod, prop, tier, seed, t0, only=None):
     print(f"{prop} [{tier}] units={len(names)} paths={paths} obligations={len(real_obs)} discharged={discharged} "
           f"refuted={len(refuted)} unknown={len(unknown)} oos={len(oos_units)} native_evals={bounded_evals} "
           f"witnesses={witness_checked} wall={ev['wall_s']}s")
+    slow = sorted(results, key=lambda r: -r.get("seconds", 0))[:3]
+    print("  slowest units: " + ", ".join(f"{r['unit']} {r.get('seconds')}s/{r['paths']}p" for r in slow))
     for u, why in oos_units:
         print(f"  out-of-subset: {u}: {why}")
     for o in unknown[:10]:
@@ -345,6 +347,9 @@ def canon_equal(a, b, loose=False):
             return set(a) == set(b) and all(canon_equal(a[k], b[k], True) for k in a)
         if isinstance(a, list) and isinstance(b, list):
             return len(a) == len(b) and all(canon_equal(x, y, True) for x, y in zip(a, b))
+    if isinstance(b, dict) and "any_of" in b:
+        from native.common import exc_matches
+        return isinstance(a, str) and any(exc_matches(a, c) for c in b["any_of"])
     if isinstance(a, dict) and isinstance(b, dict):
         ta, tb = a.get("t"), b.get("t")
         if {ta, tb} <= {"frac", "float"} and ta and tb:
